@@ -459,6 +459,24 @@ def reg (w : World) : String := toString (w.obs.filter Option.isSome).length
 
 def optObj (s : String) : Option Obj := if s == "-" then none else s.toNat?
 
+/-- a graph-level mutator of the protocol as an `Op` -/
+def parseOp (t : List String) : Option Op :=
+  let nat (s : String) : Nat := s.toNat?.getD 0
+  match t with
+  | ["createNode"] => some .createNode
+  | ["createNodeFromNode", o] => some (.createNodeFromNode (nat o))
+  | ["createNodeOnEdge", e] => some (.createNodeOnEdge (nat e))
+  | ["createNodeFromEdge", e] => some (.createNodeFromEdge (nat e))
+  | ["link", a, b] => some (.link (nat a) (nat b))
+  | ["linkE", a, b, e] => some (.linkE (nat a) (nat b) (nat e))
+  | ["unlink", a, b] => some (.unlink (nat a) (nat b))
+  | ["switchNodes", a, b] => some (.switchNodes (nat a) (nat b))
+  | ["deleteNode", n] => some (.deleteNode (nat n))
+  | ["makeDirected"] => some .makeDirected
+  | ["makeUndirected"] => some .makeUndirected
+  | ["setRoot", n] => some (.setRoot (nat n))
+  | _ => none
+
 def step (st : St) (op : List String) (impl : Option (List String)) : St × String × String :=
   let nat (s : String) : Nat := s.toNat?.getD 0
   let okS (_ : Unit) := "ok"
@@ -493,6 +511,35 @@ def step (st : St) (op : List String) (impl : Option (List String)) : St × Stri
     mutOp st impl st.g.makeUndirected okS sp.makeUndirected (fun _ => "ok") id
   | ["setRoot", n] =>
     mutOp st impl (st.g.setRoot (nat n)) okS (sp.setRoot (nat n)) (fun _ => "ok") id
+  | "gcopy" :: _kind :: rest =>
+    -- a mutator called on a copy of the graph (copy constructor / operator= / clone()): the copy is a
+    -- graph of its own, without observers; the original and its observers do not change
+    match parseOp rest with
+    | none => (st, "bad-op", "-")
+    | some op =>
+      let r := st.g.applyR op
+      let txt := match r with
+        | .ok l _ => if l.isEmpty then "ok" else showNats l
+        | .exc _ => "exc:bpp"
+      let res := s!"{txt} reg 0 copy {showGraph { r.state with pending := [] }}"
+      let want : Want := { res := res, spec := sp }
+      finish st res st.w want (judge st impl want true "graph_copy_is_separate")
+  | ["gassign", n] =>
+    -- `GlobalGraph::operator=` onto the observed graph (GlobalGraph.cpp:41, as repaired): the content becomes
+    -- that of a path of n nodes of the other directedness; the observers stay and are told that all
+    -- former edges and nodes are gone
+    let n := nat n
+    let h : G := (Graph.empty (!w.g.directed)).run
+      ((List.replicate n Op.createNode) ++ (List.range (n - 1)).map (fun i => Op.link i (i + 1)))
+    let w' := w.graphAssign { h with pending := [] }
+    omut st impl (.ok "ok reg 0" w') { res := "", spec := { h with pending := [] }.abs }
+  | ["notifyE", a, b] =>
+    -- `notifyDeletedEdges` is a public member: every observer forgets the objects of the named edges
+    let w' := ({ w with g := { w.g with pending := [.edges [nat a, nat b]] } } : World).deliver
+    omut st impl (.ok "ok" w') keep
+  | ["notifyN", a, b] =>
+    let w' := ({ w with g := { w.g with pending := [.nodes [nat a, nat b]] } } : World).deliver
+    omut st impl (.ok "ok" w') keep
   | ["qn", n] => query st impl (fun v => qn v (nat n))
   | ["qe", e] => query st impl (fun v => qe v (nat e))
   | ["qp", a, b] => query st impl (fun v => qp v (nat a) (nat b))
